@@ -857,6 +857,9 @@ where
             }
         }
 
+        #[cfg(feature = "verif")]
+        anda_db_utils::verif::point("tf.insert.postings");
+
         // Phase 2: Update bucket states
         // tokens_to_migrate: (old_bucket_id, token, size)
         let mut tokens_to_migrate: Vec<(u32, String, usize)> = Vec::new();
@@ -884,6 +887,9 @@ where
                 bucket.doc_ids.insert(id);
             }
         }
+
+        #[cfg(feature = "verif")]
+        anda_db_utils::verif::point("tf.insert.buckets");
 
         // Phase 3: Create new buckets if needed
         if !tokens_to_migrate.is_empty() {
@@ -1024,6 +1030,9 @@ where
             }
         }
 
+        #[cfg(feature = "verif")]
+        anda_db_utils::verif::point("tf.remove.postings");
+
         // Drop empty postings atomically: a concurrent insert may have appended
         // a new entry after the guard above was released, in which case the
         // posting must survive. `remove_if` re-checks under the shard lock.
@@ -1038,6 +1047,9 @@ where
                 removed_postings.insert(token);
             }
         }
+
+        #[cfg(feature = "verif")]
+        anda_db_utils::verif::point("tf.remove.entries");
 
         for (bucket_id, val) in buckets_to_update {
             if let Some(mut b) = self.buckets.get_mut(&bucket_id) {
@@ -1220,6 +1232,9 @@ where
             *bucket_size_decrease.entry(bucket_id).or_default() += size_decrease;
         }
 
+        #[cfg(feature = "verif")]
+        anda_db_utils::verif::point("tf.purge.swept");
+
         // Phase 3: drop the emptied posting lists atomically. A concurrent
         // insert may have appended an entry after the sweep released the shard
         // guard, in which case the posting must survive; `remove_if` re-checks
@@ -1235,6 +1250,9 @@ where
                 removed_postings.insert(token.clone());
             }
         }
+
+        #[cfg(feature = "verif")]
+        anda_db_utils::verif::point("tf.purge.entries");
 
         // Phase 4: resize and dirty every bucket that owned an affected token.
         let mut purged_postings = !bucket_size_decrease.is_empty();
@@ -1906,6 +1924,9 @@ where
             })
             .collect();
 
+        #[cfg(feature = "verif")]
+        anda_db_utils::verif::point("tf.compact.snapshot");
+
         if token_sizes.is_empty() {
             self.buckets.clear();
             self.buckets.insert(
@@ -1966,6 +1987,8 @@ where
 
         // Step 4: Rebuild buckets.
         self.buckets.clear();
+        #[cfg(feature = "verif")]
+        anda_db_utils::verif::point("tf.compact.cleared");
         let new_count = bins.len();
         let max_id = new_count.saturating_sub(1) as u32;
 
